@@ -6,7 +6,7 @@ From Verif Require Import C17.Model C17.Spec C17.Hoare C17.Proofs_ver.
 Import ListNotations.
 Open Scope Z_scope.
 
-Definition consts (j : job) := (paused j, direct j, ttl j, pvalid j, owner j).
+Definition consts (j : job) := (paused j, direct j, ttl j, pvalid j, owner j, tmpl j).
 
 (* terminal phases short-circuit: nothing of the job or the reservation changes, nothing is recorded *)
 Lemma core_terminal fx s f :
